@@ -94,6 +94,54 @@ def gen_cases(ctx, n):
     return out
 
 
+def corpus_cases(ctx):
+    """tie (c): real members written by historical encoders (LHA 2.x, LHA for Unix, LHmelt, UNLHA32, LHark …) are parsed by an
+    independent parser (vlib/lhparse.py) into the spec's description language; the Lean spec must re-serialise them bit for bit
+    (so `serialise` IS the real format) and the C decoder's output on the real bytes must equal `expand` of the parsed commands"""
+    from vlib import corpus, lhparse
+    lhv = core.lhv_path()
+    bm = corpus.by_method(lhv, maxlen=30000 if ctx.tier == "quick" else None)
+    items = []
+    for meth in ("lh4", "lh5", "lh6", "lh7", "lhx", "lk7"):
+        for m in bm.get("-%s-" % meth, []):
+            try:
+                blocks, produced, bits = lhparse.parse(meth, m["data"], m["length"])
+            except Exception as e:
+                items.append((meth, m, None, "parser failed: %r" % e))
+                continue
+            items.append((meth, m, "/".join(b for b, _, _ in blocks), None))
+    ser, _ = core.run_lines_parallel([lhv], ["lhnser %s %s" % (meth, d) for meth, m, d, err in items if d is not None])
+    ser = iter(ser)
+    out = []
+    for meth, m, d, err in items:
+        tie = err
+        if d is not None:
+            o = next(ser)
+            hx = o.split()[1] if o.startswith("ok") and len(o.split()) > 1 else ""
+            if not o.startswith("ok"):
+                tie = "the spec rejects a real %s member of %s as not well-formed (%s)" % (meth, m["archive"], o[:30])
+            else:
+                sb = bytes.fromhex(hx) if hx != "-" else b""
+                if not (m["data"].startswith(sb) and len(m["data"]) - len(sb) <= 2):
+                    tie = "Spec.LhNewEnc.serialise does not reproduce a real %s member of %s bit for bit" % (meth, m["archive"])
+        sj0 = mk_spec_judge(m["length"])
+
+        def sj(c_out, s_out, tie=tie, sj0=sj0, m=m):
+            if tie:
+                return "TIE: " + tie
+            why = sj0(c_out, s_out)
+            if why:
+                return why
+            dd = S.parse_dec(c_out)
+            if dd and int(dd["crc"], 16) != m["crc"]:
+                return "real member of %s decodes to data whose CRC differs from the recorded one" % m["archive"]
+            return None
+        out.append(Case(S.dec_op(meth, m["length"], 0, -1, [], m["data"]), spec="lhnexp %s %s" % (meth, d or "-;-;-;-"),
+                        spec_judge=sj, tags={"corpus", "m=" + meth}, note="copy corpus"))
+    ctx.dist["corpus-members-reserialised"] += len(items)
+    return out
+
+
 def nontrivial(c):
     return bool(c.note and c.note.strip())
 
